@@ -120,6 +120,7 @@ type QueryNoWithParse struct {
 	queryTerm IMSTree
 	sortItems []IMSTree
 	limit     int
+	hasLimit  bool // a LIMIT clause is present (LIMIT 0 is a limit, too)
 }
 
 func NewQueryNoWithParse(node antlr.Tree) (term *QueryNoWithParse) {
@@ -133,6 +134,7 @@ func NewQueryNoWithParse(node antlr.Tree) (term *QueryNoWithParse) {
 	}
 	if ctx.LIMIT() != nil {
 		term.limit, _ = strconv.Atoi(ctx.INTEGER_VALUE().GetText())
+		term.hasLimit = true
 	}
 	return term
 }
